@@ -21,7 +21,7 @@ theorem route_congr (s s' : St) (c : Cidr) (hme : s'.me = s.me) (hn : s'.nodes =
 theorem routeOfPath_nodes_congr (me : Nat) (nodes nodes' : List (Nat × NodeInfo)) (c : Cidr)
     (path : List (Cidr × RouteInfo))
     (h : ∀ n, (path.foldl (accStep me c) {}).dstNode = some n →
-      aget nodes' n = aget nodes n ∧ nodeInOurSubnet me nodes' n = nodeInOurSubnet me nodes n) :
+      aget nodes' n = aget nodes n ∧ nodeInOurSubnet c.v6 me nodes' n = nodeInOurSubnet c.v6 me nodes n) :
     routeOfPath me nodes' c path = routeOfPath me nodes c path := by
   unfold routeOfPath
   simp only []
@@ -35,12 +35,12 @@ theorem routeOfPath_nodes_congr (me : Nat) (nodes nodes' : List (Nat × NodeInfo
 theorem view_block_ne_empty (v : RouteInfo) (n : Nat) (h : v.block = some n) : v ≠ {} := by
   intro e; rw [e] at h; cases h
 
-theorem plain_fullPath (s : St) (ha : Aux s) (c : Cidr) (hl : c.len ≤ 32) :
+theorem plain_fullPath (s : St) (ha : Aux s) (c : Cidr) (hl : c.len ≤ c.width) :
     PlainAncestors ((List.range c.len).map (fun l => (ancKey c l, s.view (ancKey c l)))) := by
   intro e he
   obtain ⟨l, hl', rfl⟩ := List.mem_map.1 he
   have hlt := List.mem_range.1 hl'
-  have hne : (ancKey c l).len ≠ 32 := by rw [ancKey_len]; omega
+  have hne : (ancKey c l).len ≠ (ancKey c l).width := by rw [ancKey_len, ancKey_width]; omega
   constructor
   · cases hh : (s.view (ancKey c l)).hosts with
     | nil => rfl
@@ -85,81 +85,90 @@ theorem Quiet.markFold {α} (g : α → Cidr) (xs : List α) (s : St) :
   obtain ⟨h1, _, _, h4, h5, h6, _⟩ := foldl_markDirty g xs s
   exact ⟨Step.markFold g xs s, h4, Aux.congr _ _ h1 h4, fun k => by rw [view_congr _ _ h1 k]; exact ⟨rfl, rfl⟩, h6, h5⟩
 
-/-- an edit at a /32 key that leaves the block field alone. -/
-theorem Quiet.host (a : Nat) (g f : RouteInfo → RouteInfo) (hcomm : ∀ ri, strip (g ri) = f (strip ri))
+theorem host_len (a : Nat) : (Cidr.host a).len = (Cidr.host a).width := rfl
+theorem host6_len (a : Nat) : (Cidr.host6 a).len = (Cidr.host6 a).width := rfl
+
+/-- an edit at a single-address key that leaves the block field alone. -/
+theorem Quiet.host (k : Cidr) (hk : k.len = k.width) (g f : RouteInfo → RouteInfo)
+    (hcomm : ∀ ri, strip (g ri) = f (strip ri))
     (hb : ∀ v, (f v).block = v.block) (hp : ∀ v, (f v).pool = v.pool) (s : St) :
-    Quiet s (s.updateCIDR (Cidr.host a) g).1 := by
-  have hE := Edit.host a g f hcomm
-  refine ⟨hE.step s, hE.nr s, fun ha => Aux.edit hE s ha (Or.inl rfl) (fun _ => Nat.le_refl 32) hb, ?_, hE.pools s, hE.br s⟩
-  intro k
-  rw [hE.view s k]
-  by_cases h : Cidr.host a = k
+    Quiet s (s.updateCIDR k g).1 := by
+  have hE := Edit.host k hk g f hcomm
+  refine ⟨hE.step s, hE.nr s, fun ha => Aux.edit hE s ha (Or.inl hk) (fun _ => Nat.le_of_eq hk) hb, ?_, hE.pools s, hE.br s⟩
+  intro k'
+  rw [hE.view s k']
+  by_cases h : k = k'
   · simp only [h, if_true]; rw [← h]; exact ⟨hp _, hb _⟩
   · simp only [h, if_false]; exact ⟨by triv, by triv⟩
 
-theorem Quiet.addRef (s : St) (a n t : Nat) : Quiet s (s.addRef (Cidr.host a) n t) :=
-  Quiet.host a _ (fun v => { v with refs := addRefL v.refs n t }) (fun _ => rfl) (fun _ => rfl) (fun _ => rfl) s
+theorem Quiet.addRef (s : St) (k : Cidr) (hk : k.len = k.width) (n t : Nat) : Quiet s (s.addRef k n t) :=
+  Quiet.host k hk _ (fun v => { v with refs := addRefL v.refs n t }) (fun _ => rfl) (fun _ => rfl) (fun _ => rfl) s
 
-theorem Quiet.removeRef (s : St) (a n t : Nat) : Quiet s (s.removeRef (Cidr.host a) n t) :=
-  Quiet.host a _ (fun v => { v with refs := removeRefL v.refs n t }) (fun _ => rfl) (fun _ => rfl) (fun _ => rfl) s
+theorem Quiet.removeRef (s : St) (k : Cidr) (hk : k.len = k.width) (n t : Nat) : Quiet s (s.removeRef k n t) :=
+  Quiet.host k hk _ (fun v => { v with refs := removeRefL v.refs n t }) (fun _ => rfl) (fun _ => rfl) (fun _ => rfl) s
 
-theorem Quiet.addHost (s : St) (a n : Nat) : Quiet s (s.addHost (Cidr.host a) n) :=
-  Quiet.host a _ (fun v => { v with hosts := insertNat v.hosts n }) (fun _ => rfl) (fun _ => rfl) (fun _ => rfl) s
+theorem Quiet.addHost (s : St) (k : Cidr) (hk : k.len = k.width) (n : Nat) : Quiet s (s.addHost k n) :=
+  Quiet.host k hk _ (fun v => { v with hosts := insertNat v.hosts n }) (fun _ => rfl) (fun _ => rfl) (fun _ => rfl) s
 
-theorem Quiet.removeHost (s : St) (a n : Nat) : Quiet s (s.removeHost (Cidr.host a) n) :=
-  Quiet.host a _ (fun v => { v with hosts := v.hosts.filter (· != n) }) (fun _ => rfl) (fun _ => rfl) (fun _ => rfl) s
+theorem Quiet.removeHost (s : St) (k : Cidr) (hk : k.len = k.width) (n : Nat) : Quiet s (s.removeHost k n) :=
+  Quiet.host k hk _ (fun v => { v with hosts := v.hosts.filter (· != n) }) (fun _ => rfl) (fun _ => rfl) (fun _ => rfl) s
+
+theorem quiet_ifAddRef (b : Bool) (s : St) (k : Cidr) (hk : k.len = k.width) (n t : Nat) :
+    Quiet s (if b then s.addRef k n t else s) := by
+  cases b
+  · exact Quiet.refl s
+  · exact Quiet.addRef s k hk n t
+
+theorem quiet_ifRemoveRef (b : Bool) (s : St) (k : Cidr) (hk : k.len = k.width) (n t : Nat) :
+    Quiet s (if b then s.removeRef k n t else s) := by
+  cases b
+  · exact Quiet.refl s
+  · exact Quiet.removeRef s k hk n t
 
 theorem quiet_addTunnelRefs (s : St) (n : Nat) (i : NodeInfo) : Quiet s (addTunnelRefs s n i) := by
   unfold addTunnelRefs
   simp only []
-  have q1 : Quiet s (if i.ipip != 0 then s.addRef (Cidr.host i.ipip) n refIPIP else s) := by
-    split
-    · exact Quiet.addRef s _ _ _
-    · exact Quiet.refl s
-  have q2 : ∀ s : St, Quiet s (if i.vxlan != 0 then s.addRef (Cidr.host i.vxlan) n refVXLAN else s) := by
-    intro s; split
-    · exact Quiet.addRef s _ _ _
-    · exact Quiet.refl s
-  have q3 : ∀ s : St, Quiet s (if i.wg != 0 then s.addRef (Cidr.host i.wg) n refWireguard else s) := by
-    intro s; split
-    · exact Quiet.addRef s _ _ _
-    · exact Quiet.refl s
-  exact (q1.trans (q2 _)).trans (q3 _)
+  exact ((((quiet_ifAddRef _ s _ (host_len _) n _).trans (quiet_ifAddRef _ _ _ (host_len _) n _)).trans
+    (quiet_ifAddRef _ _ _ (host6_len _) n _)).trans (quiet_ifAddRef _ _ _ (host_len _) n _)).trans
+    (quiet_ifAddRef _ _ _ (host6_len _) n _)
 
 theorem quiet_removeTunnelRefs (s : St) (n : Nat) (i : NodeInfo) : Quiet s (removeTunnelRefs s n i) := by
   unfold removeTunnelRefs
   simp only []
-  have q1 : Quiet s (if i.ipip != 0 then s.removeRef (Cidr.host i.ipip) n refIPIP else s) := by
-    split
-    · exact Quiet.removeRef s _ _ _
-    · exact Quiet.refl s
-  have q2 : ∀ s : St, Quiet s (if i.vxlan != 0 then s.removeRef (Cidr.host i.vxlan) n refVXLAN else s) := by
-    intro s; split
-    · exact Quiet.removeRef s _ _ _
-    · exact Quiet.refl s
-  have q3 : ∀ s : St, Quiet s (if i.wg != 0 then s.removeRef (Cidr.host i.wg) n refWireguard else s) := by
-    intro s; split
-    · exact Quiet.removeRef s _ _ _
-    · exact Quiet.refl s
-  exact (q1.trans (q2 _)).trans (q3 _)
-
+  exact ((((quiet_ifRemoveRef _ s _ (host_len _) n _).trans (quiet_ifRemoveRef _ _ _ (host_len _) n _)).trans
+    (quiet_ifRemoveRef _ _ _ (host6_len _) n _)).trans (quiet_ifRemoveRef _ _ _ (host_len _) n _)).trans
+    (quiet_ifRemoveRef _ _ _ (host6_len _) n _)
 
 /-! ### the stages of `onNodeUpdate` -/
 
-theorem nodeVisit_quiet (s : St) (n : Nat) (old new : Option NodeInfo) :
-    Quiet s (s.nodeVisit n old new) ∧ (s.nodeVisit n old new).nodes = s.nodes ∧
-    ((n == s.me && cidrOf old != cidrOf new) = true → ∀ c ri, (c, ri) ∈ s.trie → subnetFlip s old new ri = true →
-      c ∈ (s.nodeVisit n old new).dirty) := by
-  unfold St.nodeVisit
+theorem nodeVisitFam_quiet (s s0 : St) (v6 : Bool) (n : Nat) (old new : Option NodeInfo) :
+    Quiet s (s.nodeVisitFam v6 s0 n old new) ∧ (s.nodeVisitFam v6 s0 n old new).nodes = s.nodes ∧
+    (s.nodeVisitFam v6 s0 n old new).trie = s.trie ∧
+    ((n == s0.me && cidrOf v6 old != cidrOf v6 new) = true → ∀ c ri, (c, ri) ∈ s0.trie → c.v6 = v6 →
+      subnetFlip v6 s0 old new ri = true → c ∈ (s.nodeVisitFam v6 s0 n old new).dirty) := by
+  unfold St.nodeVisitFam
   split
   · rename_i h
-    obtain ⟨_, h2, _, _, _, _, _, h8⟩ := foldl_markDirty (fun e : Cidr × RouteInfo => e.1)
-      (s.trie.filter (fun e => subnetFlip s old new e.2)) s
-    refine ⟨Quiet.markFold _ _ s, h2, ?_⟩
-    intro _ c ri hmem hf
-    exact (h8 c).2 (Or.inr ⟨(c, ri), List.mem_filter.2 ⟨hmem, hf⟩, rfl⟩)
+    obtain ⟨h1, h2, _, _, _, _, _, h8⟩ := foldl_markDirty (fun e : Cidr × RouteInfo => e.1)
+      (s0.trie.filter (fun e => e.1.v6 == v6 && subnetFlip v6 s0 old new e.2)) s
+    refine ⟨Quiet.markFold _ _ s, h2, h1, ?_⟩
+    intro _ c ri hmem hv hf
+    exact (h8 c).2 (Or.inr ⟨(c, ri), List.mem_filter.2 ⟨hmem, by simp [hv, hf]⟩, rfl⟩)
   · rename_i h
-    exact ⟨Quiet.refl s, rfl, fun h' => absurd h' h⟩
+    exact ⟨Quiet.refl s, rfl, rfl, fun h' => absurd h' h⟩
+
+theorem nodeVisit_quiet (s : St) (n : Nat) (old new : Option NodeInfo) :
+    Quiet s (s.nodeVisit n old new) ∧ (s.nodeVisit n old new).nodes = s.nodes ∧
+    (∀ v6, (n == s.me && cidrOf v6 old != cidrOf v6 new) = true → ∀ c ri, (c, ri) ∈ s.trie → c.v6 = v6 →
+      subnetFlip v6 s old new ri = true → c ∈ (s.nodeVisit n old new).dirty) := by
+  unfold St.nodeVisit
+  obtain ⟨q1, n1, _, m1⟩ := nodeVisitFam_quiet s s false n old new
+  obtain ⟨q2, n2, _, m2⟩ := nodeVisitFam_quiet (s.nodeVisitFam false s n old new) s true n old new
+  refine ⟨q1.trans q2, n2.trans n1, ?_⟩
+  intro v6 hc c ri hmem hv hf
+  cases v6
+  · exact q2.step.mono c (m1 hc c ri hmem hv hf)
+  · exact m2 hc c ri hmem hv hf
 
 theorem quiet_nodes_addRef (s : St) (c : Cidr) (n t : Nat) : (s.addRef c n t).nodes = s.nodes :=
   (updateCIDR_facts s c _).2.1
@@ -173,12 +182,14 @@ theorem quiet_nodes_removeHost (s : St) (c : Cidr) (n : Nat) : (s.removeHost c n
 theorem addTunnelRefs_nodes (s : St) (n : Nat) (i : NodeInfo) : (addTunnelRefs s n i).nodes = s.nodes := by
   unfold addTunnelRefs
   simp only []
-  split <;> split <;> split <;> simp [quiet_nodes_addRef]
+  repeat' split
+  all_goals simp [quiet_nodes_addRef]
 
 theorem removeTunnelRefs_nodes (s : St) (n : Nat) (i : NodeInfo) : (removeTunnelRefs s n i).nodes = s.nodes := by
   unfold removeTunnelRefs
   simp only []
-  split <;> split <;> split <;> simp [quiet_nodes_removeRef]
+  repeat' split
+  all_goals simp [quiet_nodes_removeRef]
 
 theorem nodeRefs_quiet (s : St) (n : Nat) (old new : Option NodeInfo) :
     Quiet s (s.nodeRefs n old new) ∧ (s.nodeRefs n old new).nodes = s.nodes := by
@@ -195,30 +206,54 @@ theorem nodeRefs_quiet (s : St) (n : Nat) (old new : Option NodeInfo) :
       exact ⟨(quiet_addTunnelRefs s n i).trans (quiet_removeTunnelRefs _ n o),
         (removeTunnelRefs_nodes _ n o).trans (addTunnelRefs_nodes s n i)⟩
 
+theorem ifRemoveHost (b : Bool) (s : St) (k : Cidr) (hk : k.len = k.width) (n : Nat) :
+    Quiet s (if b then s.removeHost k n else s) ∧ (if b then s.removeHost k n else s).nodes = s.nodes := by
+  cases b
+  · exact ⟨Quiet.refl s, rfl⟩
+  · exact ⟨Quiet.removeHost s k hk n, quiet_nodes_removeHost _ _ _⟩
+
+theorem ifAddHost (b : Bool) (s : St) (k : Cidr) (hk : k.len = k.width) (n : Nat) :
+    Quiet s (if b then s.addHost k n else s) ∧ (if b then s.addHost k n else s).nodes = s.nodes := by
+  cases b
+  · exact ⟨Quiet.refl s, rfl⟩
+  · exact ⟨Quiet.addHost s k hk n, quiet_nodes_addHost _ _ _⟩
+
 theorem nodeHosts_quiet (s : St) (n : Nat) (old new : Option NodeInfo) (hold : old = aget s.nodes n) :
     Quiet s (s.nodeHosts n old new) ∧
     (∀ m, aget (s.nodeHosts n old new).nodes m = if n = m then new else aget s.nodes m) := by
   unfold St.nodeHosts
   have stage1 : ∀ o : NodeInfo,
-      Quiet s (if o.v4Addr != 0 then ({ s with nodes := adel s.nodes n } : St).removeHost (Cidr.host o.v4Addr) n
-               else { s with nodes := adel s.nodes n }) ∧
-      (if o.v4Addr != 0 then ({ s with nodes := adel s.nodes n } : St).removeHost (Cidr.host o.v4Addr) n
-               else { s with nodes := adel s.nodes n }).nodes = adel s.nodes n := by
+      Quiet s (if o.v6Addr != 0 then
+          (if o.v4Addr != 0 then ({ s with nodes := adel s.nodes n } : St).removeHost (Cidr.host o.v4Addr) n
+           else { s with nodes := adel s.nodes n }).removeHost (Cidr.host6 o.v6Addr) n
+        else (if o.v4Addr != 0 then ({ s with nodes := adel s.nodes n } : St).removeHost (Cidr.host o.v4Addr) n
+              else { s with nodes := adel s.nodes n })) ∧
+      (if o.v6Addr != 0 then
+          (if o.v4Addr != 0 then ({ s with nodes := adel s.nodes n } : St).removeHost (Cidr.host o.v4Addr) n
+           else { s with nodes := adel s.nodes n }).removeHost (Cidr.host6 o.v6Addr) n
+        else (if o.v4Addr != 0 then ({ s with nodes := adel s.nodes n } : St).removeHost (Cidr.host o.v4Addr) n
+              else { s with nodes := adel s.nodes n })).nodes = adel s.nodes n := by
     intro o
     have q0 : Quiet s ({ s with nodes := adel s.nodes n } : St) := Quiet.of_eq _ _ rfl rfl rfl rfl rfl rfl
-    split
-    · exact ⟨q0.trans (Quiet.removeHost _ _ _), quiet_nodes_removeHost _ _ _⟩
-    · exact ⟨q0, rfl⟩
+    obtain ⟨qa, na⟩ := ifRemoveHost (o.v4Addr != 0) ({ s with nodes := adel s.nodes n } : St) _ (host_len o.v4Addr) n
+    obtain ⟨qb, nb⟩ := ifRemoveHost (o.v6Addr != 0) _ _ (host6_len o.v6Addr) n
+    exact ⟨(q0.trans qa).trans qb, nb.trans na⟩
   have stage2 : ∀ (t : St) (i : NodeInfo),
-      Quiet t (if i.v4Addr != 0 then ({ t with nodes := aset t.nodes n i } : St).addHost (Cidr.host i.v4Addr) n
-               else { t with nodes := aset t.nodes n i }) ∧
-      (if i.v4Addr != 0 then ({ t with nodes := aset t.nodes n i } : St).addHost (Cidr.host i.v4Addr) n
-               else { t with nodes := aset t.nodes n i }).nodes = aset t.nodes n i := by
+      Quiet t (if i.v6Addr != 0 then
+          (if i.v4Addr != 0 then ({ t with nodes := aset t.nodes n i } : St).addHost (Cidr.host i.v4Addr) n
+           else { t with nodes := aset t.nodes n i }).addHost (Cidr.host6 i.v6Addr) n
+        else (if i.v4Addr != 0 then ({ t with nodes := aset t.nodes n i } : St).addHost (Cidr.host i.v4Addr) n
+              else { t with nodes := aset t.nodes n i })) ∧
+      (if i.v6Addr != 0 then
+          (if i.v4Addr != 0 then ({ t with nodes := aset t.nodes n i } : St).addHost (Cidr.host i.v4Addr) n
+           else { t with nodes := aset t.nodes n i }).addHost (Cidr.host6 i.v6Addr) n
+        else (if i.v4Addr != 0 then ({ t with nodes := aset t.nodes n i } : St).addHost (Cidr.host i.v4Addr) n
+              else { t with nodes := aset t.nodes n i })).nodes = aset t.nodes n i := by
     intro t i
     have q0 : Quiet t ({ t with nodes := aset t.nodes n i } : St) := Quiet.of_eq _ _ rfl rfl rfl rfl rfl rfl
-    split
-    · exact ⟨q0.trans (Quiet.addHost _ _ _), quiet_nodes_addHost _ _ _⟩
-    · exact ⟨q0, rfl⟩
+    obtain ⟨qa, na⟩ := ifAddHost (i.v4Addr != 0) ({ t with nodes := aset t.nodes n i } : St) _ (host_len i.v4Addr) n
+    obtain ⟨qb, nb⟩ := ifAddHost (i.v6Addr != 0) _ _ (host6_len i.v6Addr) n
+    exact ⟨(q0.trans qa).trans qb, nb.trans na⟩
   cases old with
   | none =>
     cases new with
@@ -275,29 +310,29 @@ theorem markAll_quiet (s : St) (n : Nat) :
   have hmem : ((n, c), j) ∈ s.nodeRoutes := aget_some_mem_beq _ _ _ hj
   exact (h8 c).2 (Or.inr ⟨((n, c), j), List.mem_filter.2 ⟨hmem, by simp⟩, rfl⟩)
 
-theorem inSub_cidr_eq (old new : Option NodeInfo) (o : NodeInfo) (h : cidrOf old = cidrOf new) :
-    inSub old o = inSub new o := by
+theorem inSub_cidr_eq (v6 : Bool) (old new : Option NodeInfo) (o : NodeInfo) (h : cidrOf v6 old = cidrOf v6 new) :
+    inSub v6 old o = inSub v6 new o := by
   cases old with
   | none =>
     cases new with
     | none => rfl
     | some l =>
-      have : l.cidr = ⟨0, 0⟩ := by simpa [cidrOf] using h.symm
+      have : l.cidrOf v6 = Cidr.zero v6 := by simpa [cidrOf] using h.symm
       simp [inSub, this]
   | some l =>
     cases new with
     | none =>
-      have : l.cidr = ⟨0, 0⟩ := by simpa [cidrOf] using h
+      have : l.cidrOf v6 = Cidr.zero v6 := by simpa [cidrOf] using h
       simp [inSub, this]
     | some l' =>
-      have : l.cidr = l'.cidr := by simpa [cidrOf] using h
+      have : l.cidrOf v6 = l'.cidrOf v6 := by simpa [cidrOf] using h
       simp [inSub, this]
 
 /-! ### the mid-point invariant -/
 
 /-- every tracked route that is not waiting for a flush has been sent with its CURRENT value. -/
 def Mid (s : St) (sent : List (Cidr × RouteUpdate)) : Prop :=
-  ∀ c n, Tracked s c n → c ∉ s.dirty → c ≠ Cidr.host 0 → aget sent c = some (s.route c)
+  ∀ c n, Tracked s c n → c ∉ s.dirty → zeroHost c = false → aget sent c = some (s.route c)
 
 theorem fullPath_congr (v v' : Cidr → RouteInfo) (c : Cidr) (hc : v' c = v c)
     (ha : ∀ l, l < c.len → v' (ancKey c l) = v (ancKey c l)) : fullPath v' c = fullPath v c := by
@@ -315,7 +350,7 @@ theorem mid_of_step (s s' : St) (sent : List (Cidr × RouteUpdate)) (hs : Step s
   have hv := hs.same c hc
   have ht' : Tracked s c n := by unfold Tracked at ht ⊢; rw [← hv]; exact ht
   have hne : s'.view c ≠ {} := view_block_ne_empty _ n ht.1
-  have hl : c.len ≤ 32 := ha.l32 c (by rw [← hv]; exact hne)
+  have hl : c.len ≤ c.width := ha.l32 c (by rw [← hv]; exact hne)
   rw [route_congr s s' c hs.me hn hv (hs.anc c hc hne hl)]
   exact hm c n ht' (fun h => hc (hs.mono c h)) h0
 
